@@ -167,6 +167,25 @@ func loadProg(repo, tags string, controls map[string][]byte) (*Prog, error) {
 			}
 		}
 	}
+	// a function that was only renamed keeps its baseline name in every rule (flatten.go: detectRenames)
+	renamedTo = map[*ssa.Function]string{}
+	if len(renamedFuncs) > 0 {
+		for fn := range p.AllFns {
+			if fn.Parent() != nil || fn.Pkg == nil || !inModule(fn.Pkg.Pkg.Path()) {
+				continue
+			}
+			recv := ""
+			if r := fn.Signature.Recv(); r != nil {
+				if n := namedOf(r.Type()); n != nil {
+					recv = n.Obj().Name()
+				}
+			}
+			k := funcInventoryKey(strings.TrimPrefix(strings.TrimPrefix(fn.Pkg.Pkg.Path(), modPath), "/"), recv, fn.Name())
+			if old, ok := renamedFuncs[k]; ok {
+				renamedTo[fn] = old[strings.LastIndex(old, ".")+1:]
+			}
+		}
+	}
 	for fn := range p.AllFns {
 		p.fnIndex[fnKey(fn)] = fn
 	}
@@ -196,14 +215,15 @@ func fnKey(fn *ssa.Function) string {
 	if fn.Parent() != nil {
 		return fnKey(fn.Parent()) + "$" + strings.TrimPrefix(fn.Name(), fn.Parent().Name()+"$")
 	}
+	name := baseName(fn)
 	if recv := fn.Signature.Recv(); recv != nil {
-		return "(" + types.TypeString(recv.Type(), nil) + ")." + fn.Name()
+		return "(" + types.TypeString(recv.Type(), nil) + ")." + name
 	}
 	if fn.Pkg != nil {
-		return fn.Pkg.Pkg.Path() + "." + fn.Name()
+		return fn.Pkg.Pkg.Path() + "." + name
 	}
 	if fn.Object() != nil && fn.Object().Pkg() != nil {
-		return fn.Object().Pkg().Path() + "." + fn.Name()
+		return fn.Object().Pkg().Path() + "." + name
 	}
 	return fn.String()
 }
@@ -309,4 +329,15 @@ func moduleHasTypeErrors(pkgs []*packages.Package) bool {
 		}
 	})
 	return bad
+}
+
+// renamedTo: functions recognised as renamed, with the name they have in the pinned tree.
+var renamedTo = map[*ssa.Function]string{}
+
+// baseName: the function's name as the rules know it.
+func baseName(fn *ssa.Function) string {
+	if old, ok := renamedTo[fn]; ok {
+		return old
+	}
+	return fn.Name()
 }
